@@ -134,7 +134,8 @@ theorem add_ok {j : FJ} {d0 : Disk} (hi : Inv j) (e : Entry) (hve : ValidEntry e
     (hm : j.disk.metaFile = d0.metaFile) (ht : j.disk.tmp = d0.tmp) :
     ∃ j' ps, j.add e = .ok (j', ps) ∧ Inv j' ∧ j'.entries = j.entries ++ [e] ∧
       j'.disk = applyPrims j.disk ps ∧ j'.mci = j.mci ∧ j'.metaSaved = j.metaSaved ∧
-      CrashAll (QF d0 (fun r => r = j.entries ∨ r = j.entries ++ [e])) j.disk ps := by
+      CrashAll (QF d0 (fun r => r = j.entries ∨ r = j.entries ++ [e])) j.disk ps ∧
+      (∀ t, QF d0 (fun r => r = j.entries) (crashDisk j.disk ps 0 t)) := by
   obtain ⟨hd, hc⟩ := hi
   have hlen : encLen (j.entries ++ [e]) = encLen j.entries + recLen e := by
     simp [encLen_append, encLen]
@@ -146,8 +147,8 @@ theorem add_ok {j : FJ} {d0 : Disk} (hi : Inv j) (e : Entry) (hve : ValidEntry e
   have hc1 : ¬ ¬ (e.idx < U64 ∧ e.term < U64) := by simp; exact hve
   have hc2 : ¬ ¬ (encBody e).length < U32 := by
     simp only [recLen] at hlen; simp; omega
-  have hcur : j.cur + (encRecord e).length = 40 + encLen (j.entries ++ [e]) := by
-    simp [hc, hlen]; omega
+  have hcur : 40 + encLen j.entries + (encRecord e).length = 40 + encLen (j.entries ++ [e]) := by
+    simp [hlen]; omega
   have hsl := setLast_ok (f := (rfWrite j.disk.file (40 + encLen j.entries) (encRecord e)).1)
     (by omega) hfit
   have hadd : j.add e = .ok
@@ -156,8 +157,10 @@ theorem add_ok {j : FJ} {d0 : Disk} (hi : Inv j) (e : Entry) (hve : ValidEntry e
           entries := j.entries ++ [e], cur := 40 + encLen (j.entries ++ [e]) },
         (rfWrite j.disk.file (40 + encLen j.entries) (encRecord e)).2 ++
           [.store 36 (leEnc 4 (40 + encLen (j.entries ++ [e])))]) := by
-    simp only [FJ.add, hc1, hc2, if_false, hcur, hc, hsl]
-  refine ⟨_, _, hadd, ?_, ?_, ?_, ?_, ?_, ?_⟩
+    simp only [FJ.add, hc1, hc2, if_false, hc, hcur, hsl]
+  have hne : (rfWrite j.disk.file (40 + encLen j.entries) (encRecord e)).2 ≠ [] := by
+    unfold rfWrite; split <;> simp
+  refine ⟨_, _, hadd, ?_, ?_, ?_, ?_, ?_, ?_, ?_⟩
   · refine ⟨?_, rfl⟩
     simp only [FJ.withFile]
     exact DInv_storeHdr t2 (by simp) hv' t3
@@ -172,13 +175,16 @@ theorem add_ok {j : FJ} {d0 : Disk} (hi : Inv j) (e : Entry) (hve : ValidEntry e
       apply crashAll_hdr
       · exact ⟨fm, ft, j.entries, hes', Or.inl rfl⟩
       · exact ⟨fm, ft, j.entries ++ [e], DInv_storeHdr t2 (by simp) hv' t3, Or.inr rfl⟩
+  · intro t
+    rw [crashDisk_append_zero _ _ _ _ hne]
+    exact t4 0 t
 
 theorem clear_ok {j : FJ} {d0 : Disk} (hi : Inv j)
     (hm : j.disk.metaFile = d0.metaFile) (ht : j.disk.tmp = d0.tmp) :
     ∃ j' ps, j.clear = .ok (j', ps) ∧ Inv j' ∧ j'.entries = [] ∧
       j'.disk = applyPrims j.disk ps ∧ j'.mci = j.mci ∧ j'.metaSaved = j.metaSaved ∧
       j'.disk.metaFile = j.disk.metaFile ∧ j'.disk.tmp = j.disk.tmp ∧
-      CrashAll (QF d0 (fun r => r = j.entries ∨ r = [])) j.disk ps := by
+      CrashAll (QF d0 (fun r => r = j.entries ∨ r = [])) j.disk ps ∧ (∃ p, ps = [p]) := by
   obtain ⟨hd, hc⟩ := hi
   have hl0 : Lay j.disk.file (leEnc 4 (40 + encLen j.entries)) [] := by
     have := hd.1.take 0; simpa using this
@@ -189,7 +195,7 @@ theorem clear_ok {j : FJ} {d0 : Disk} (hi : Inv j)
   have hclear : j.clear = .ok ({ j.withFile (storeAt j.disk.file 36 (leEnc 4 FIRST_RECORD_OFFSET)) with
       entries := [], cur := FIRST_RECORD_OFFSET }, [.store 36 (leEnc 4 FIRST_RECORD_OFFSET)]) := by
     simp only [FJ.clear, hsl]
-  refine ⟨_, _, hclear, ?_, ?_, ?_, ?_, ?_, ?_, ?_, ?_⟩
+  refine ⟨_, _, hclear, ?_, ?_, ?_, ?_, ?_, ?_, ?_, ?_, ⟨_, rfl⟩⟩
   · exact ⟨by simpa [FJ.withFile, encLen, FIRST_RECORD_OFFSET] using hd', by simp [encLen, FIRST_RECORD_OFFSET]⟩
   · rfl
   · simp [FJ.withFile, applyPrim]
@@ -200,5 +206,197 @@ theorem clear_ok {j : FJ} {d0 : Disk} (hi : Inv j)
   · apply crashAll_hdr
     · exact ⟨hm, ht, j.entries, hd, Or.inl rfl⟩
     · exact ⟨hm, ht, [], by simpa [encLen, FIRST_RECORD_OFFSET] using hd', Or.inr rfl⟩
+
+theorem take_succ_getElem {es : List Entry} {n : Nat} (h : n < es.length) :
+    es.take (n + 1) = es.take n ++ [es[n]] := by
+  rw [List.take_add_one]; simp [h]
+
+/-- The backward walk of `deleteEntriesFrom`. `m` = number of entries still considered present,
+`m0` = the number the header word currently publishes. -/
+theorem delWalk_ok (es : List Entry) (hv : Valid es) (d0 : Disk) :
+    ∀ (k removed m m0 : Nat) (d : Disk), k ≤ m → m ≤ m0 → m0 ≤ es.length →
+      Lay d.file (leEnc 4 (40 + encLen (es.take m0))) es → 1024 ≤ d.file.length →
+      d.metaFile = d0.metaFile → d.tmp = d0.tmp →
+      ∃ f' ps m0', delWalk k removed d.file (40 + encLen (es.take m)) =
+          .ok (f', 40 + encLen (es.take (m - k)), ps) ∧
+        applyPrims d ps = { d with file := f' } ∧ m - k ≤ m0' ∧ m0' ≤ es.length ∧
+        Lay f' (leEnc 4 (40 + encLen (es.take m0'))) es ∧ 1024 ≤ f'.length ∧
+        CrashAll (QF d0 (fun r => ∃ m', m - k ≤ m' ∧ r = es.take m')) d ps := by
+  intro k
+  induction k with
+  | zero =>
+    intro removed m m0 d _ hm0 hm0l hl hs hm ht
+    refine ⟨d.file, [], m0, by simp [delWalk], by simp, by omega, hm0l, hl, hs, ?_⟩
+    apply CrashAll.nil
+    exact ⟨hm, ht, es.take m0, ⟨hl.take m0, hv.take m0, hs⟩, m0, by omega, rfl⟩
+  | succ k ih =>
+    intro removed m m0 d hk hm0 hm0l hl hs hm ht
+    obtain ⟨n, rfl⟩ : ∃ n, m = n + 1 := ⟨m - 1, by omega⟩
+    have hn : n < es.length := by omega
+    have htk := take_succ_getElem hn
+    have hmem : es[n] ∈ es := List.getElem_mem hn
+    have hrl := encLen_mem hmem
+    have hb : (encBody es[n]).length < U32 := by
+      have := hv.1; simp [recLen] at hrl ⊢; omega
+    have hlt : Lay d.file (leEnc 4 (40 + encLen (es.take m0))) (es.take n ++ [es[n]]) := by
+      rw [← htk]; exact hl.take _
+    have hrd := hlt.rdTrailer (by simp) hb
+    rw [← htk] at hrd
+    have hcl : encLen (es.take (n + 1)) = encLen (es.take n) + recLen es[n] := by
+      rw [htk, encLen_append]; simp [encLen]
+    have hnot : ¬ 40 + encLen (es.take (n + 1)) < (encBody es[n]).length + 8 := by
+      simp [recLen] at hcl ⊢; omega
+    have hcur' : 40 + encLen (es.take (n + 1)) - ((encBody es[n]).length + 8) = 40 + encLen (es.take n) := by
+      simp [recLen] at hcl ⊢; omega
+    have hsub : n + 1 - (k + 1) = n - k := by omega
+    have hQ0 : QF d0 (fun r => ∃ m', n + 1 - (k + 1) ≤ m' ∧ r = es.take m') d :=
+      ⟨hm, ht, es.take m0, ⟨hl.take m0, hv.take m0, hs⟩, m0, by omega, rfl⟩
+    by_cases h10 : (removed + 1) % 10 = 0
+    · -- header rewritten at this step
+      have hx : 40 + encLen (es.take n) < U32 := (hv.take n).1
+      have hsl := setLast_ok (f := d.file) (by omega) hx
+      have hl' : Lay (storeAt d.file 36 (leEnc 4 (40 + encLen (es.take n))))
+          (leEnc 4 (40 + encLen (es.take n))) es := hl.storeHdr (by simp) _ (by simp)
+      have hs' : 1024 ≤ (storeAt d.file 36 (leEnc 4 (40 + encLen (es.take n)))).length := by
+        rw [storeAt_length (by simp; omega)]; exact hs
+      obtain ⟨f', ps, m0', e1, e2, e3, e4, e5, e6, e7⟩ :=
+        ih (removed + 1) n n { d with file := storeAt d.file 36 (leEnc 4 (40 + encLen (es.take n))) }
+          (by omega) (Nat.le_refl _) (by omega) hl' hs' hm ht
+      refine ⟨f', .store 36 (leEnc 4 (40 + encLen (es.take n))) :: ps, m0', ?_, ?_, by omega, e4, e5, e6, ?_⟩
+      · simp only [delWalk, hrd, hnot, if_false, h10, if_true, hcur', hsl, e1, hsub, List.singleton_append]
+      · simp only [applyPrims_cons, applyPrim, e2]
+      · apply CrashAll.cons
+        · intro t; rw [tornPrim_hdr _ _ (by simp)]; exact hQ0
+        · simp only [applyPrim, hsub]; exact e7
+    · obtain ⟨f', ps, m0', e1, e2, e3, e4, e5, e6, e7⟩ :=
+        ih (removed + 1) n m0 d (by omega) (by omega) hm0l hl hs hm ht
+      refine ⟨f', ps, m0', ?_, e2, by omega, e4, e5, e6, ?_⟩
+      · simp only [delWalk, hrd, hnot, if_false, h10, hcur', e1, hsub]
+      · simp only [hsub]; exact e7
+
+theorem delFrom_ok {j : FJ} {d0 : Disk} (hi : Inv j) (n : Nat)
+    (hm : j.disk.metaFile = d0.metaFile) (ht : j.disk.tmp = d0.tmp) :
+    ∃ j' ps, j.delFrom n = .ok (j', ps) ∧ Inv j' ∧ j'.entries = j.entries.take n ∧
+      j'.disk = applyPrims j.disk ps ∧ j'.mci = j.mci ∧ j'.metaSaved = j.metaSaved ∧
+      CrashAll (QF d0 (fun r => ∃ m, n ≤ m ∧ r = j.entries.take m)) j.disk ps := by
+  obtain ⟨hd, hc⟩ := hi
+  obtain ⟨hl, hv, hs⟩ := hd
+  have hfull : j.entries.take j.entries.length = j.entries := List.take_length
+  obtain ⟨f', ps, m0', e1, e2, e3, e4, e5, e6, e7⟩ :=
+    delWalk_ok j.entries hv d0 (j.entries.length - n) 0 j.entries.length j.entries.length j.disk
+      (by omega) (Nat.le_refl _) (Nat.le_refl _) (by rw [hfull]; exact hl) hs hm ht
+  rw [hfull] at e1
+  have hsub : j.entries.take (j.entries.length - (j.entries.length - n)) = j.entries.take n := by
+    by_cases h : n ≤ j.entries.length
+    · congr 1; omega
+    · have h1 : j.entries.length - (j.entries.length - n) = j.entries.length := by omega
+      rw [h1, List.take_length, List.take_of_length_le (by omega)]
+  rw [hsub] at e1
+  have hvn := hv.take n
+  have hsl := setLast_ok (f := f') (by omega) hvn.1
+  have hdel : j.delFrom n = .ok ({ j.withFile (storeAt f' 36 (leEnc 4 (40 + encLen (j.entries.take n)))) with
+      entries := j.entries.take n, cur := 40 + encLen (j.entries.take n) },
+      ps ++ [.store 36 (leEnc 4 (40 + encLen (j.entries.take n)))]) := by
+    simp only [FJ.delFrom, hc, e1, hsl]
+  have hdn : DInv (storeAt f' 36 (leEnc 4 (40 + encLen (j.entries.take n)))) (j.entries.take n) :=
+    DInv_storeHdr (e5.take n) (by simp) hvn e6
+  have hfin := e7.final
+  rw [e2] at hfin
+  refine ⟨_, _, hdel, ⟨hdn, rfl⟩, rfl, ?_, rfl, rfl, ?_⟩
+  · simp only [FJ.withFile]; rw [applyPrims_append, e2]; rfl
+  · apply CrashAll.append
+    · refine CrashAll.mono e7 (fun d h => QF.mono h ?_)
+      rintro r ⟨m', h1, rfl⟩
+      refine ⟨max m' n, by omega, ?_⟩
+      by_cases hmn : n ≤ m'
+      · rw [Nat.max_eq_left hmn]
+      · -- m' < n is only possible when both exceed the length
+        have hlen : j.entries.length ≤ m' := by omega
+        rw [Nat.max_eq_right (by omega), List.take_of_length_le hlen, List.take_of_length_le (by omega)]
+    · rw [e2]
+      apply crashAll_hdr
+      · obtain ⟨a, b, r, c1, m', c2, rfl⟩ := hfin
+        refine ⟨a, b, _, c1, max m' n, by omega, ?_⟩
+        by_cases hmn : n ≤ m'
+        · rw [Nat.max_eq_left hmn]
+        · have hlen : j.entries.length ≤ m' := by omega
+          rw [Nat.max_eq_right (by omega), List.take_of_length_le hlen, List.take_of_length_le (by omega)]
+      · exact ⟨hfin.1, hfin.2.1, _, hdn, n, Nat.le_refl _, rfl⟩
+
+theorem addAll_ok (d0 : Disk) : ∀ (kept : List Entry) (j : FJ), Inv j → (∀ e ∈ kept, ValidEntry e) →
+    40 + encLen (j.entries ++ kept) < U32 → j.disk.metaFile = d0.metaFile → j.disk.tmp = d0.tmp →
+    ∃ j' ps, addAll j kept = .ok (j', ps) ∧ Inv j' ∧ j'.entries = j.entries ++ kept ∧
+      j'.disk = applyPrims j.disk ps ∧ j'.mci = j.mci ∧ j'.metaSaved = j.metaSaved ∧
+      CrashAll (QF d0 (fun r => ∃ m, r = j.entries ++ kept.take m)) j.disk ps ∧
+      (∀ t, QF d0 (fun r => r = j.entries) (crashDisk j.disk ps 0 t)) := by
+  intro kept
+  induction kept with
+  | nil =>
+    intro j hi _ _ hm ht
+    refine ⟨j, [], rfl, hi, by simp, rfl, rfl, rfl, ?_, ?_⟩
+    · exact CrashAll.nil ⟨hm, ht, j.entries, hi.1, 0, by simp⟩
+    · intro t; simpa using ⟨hm, ht, j.entries, hi.1, rfl⟩
+  | cons e kept ih =>
+    intro j hi hve hfit hm ht
+    have hfit1 : 40 + encLen (j.entries ++ [e]) < U32 := by
+      have : encLen (j.entries ++ e :: kept) = encLen (j.entries ++ [e]) + encLen kept := by
+        rw [← encLen_append]; simp
+      omega
+    obtain ⟨j1, p1, a1, a2, a3, a4, a5, a6, a7, a8⟩ := add_ok hi e (hve e List.mem_cons_self) hfit1 hm ht
+    have hp1 : p1 ≠ [] := by
+      intro h; subst h
+      have := a2.1; rw [a4, a3] at this
+      have h1 := hi.1.1.rdHdr hi.1.2.1.1
+      have h2 := this.1.rdHdr this.2.1.1
+      simp only [applyPrims_nil] at h2
+      rw [h1] at h2
+      simp [encLen_append, encLen, recLen] at h2
+    have hfin := a7.final
+    rw [← a4] at hfin
+    obtain ⟨j2, p2, b1, b2, b3, b4, b5, b6, b7, _⟩ := ih j1 a2 (fun x hx => hve x (List.mem_cons_of_mem _ hx))
+      (by rw [a3]; simpa using hfit) hfin.1 hfin.2.1
+    refine ⟨j2, p1 ++ p2, by simp only [addAll, a1, b1], b2, by rw [b3, a3]; simp, ?_, by rw [b5, a5],
+      by rw [b6, a6], ?_, ?_⟩
+    rotate_left 2
+    · intro t; rw [crashDisk_append_zero _ _ _ _ hp1]; exact a8 t
+    · rw [applyPrims_append, ← a4, b4]
+    · apply CrashAll.append
+      · refine CrashAll.mono a7 (fun d h => QF.mono h ?_)
+        rintro r (rfl | rfl)
+        · exact ⟨0, by simp⟩
+        · exact ⟨1, by simp⟩
+      · rw [← a4]
+        refine CrashAll.mono b7 (fun d h => QF.mono h ?_)
+        rintro r ⟨m, rfl⟩
+        exact ⟨m + 1, by rw [a3]; simp⟩
+
+theorem delTo_ok {j : FJ} {d0 : Disk} (hi : Inv j) (n : Nat)
+    (hm : j.disk.metaFile = d0.metaFile) (ht : j.disk.tmp = d0.tmp) :
+    ∃ j' ps, j.delTo n = .ok (j', ps) ∧ Inv j' ∧ j'.entries = j.entries.drop n ∧
+      j'.disk = applyPrims j.disk ps ∧ j'.mci = j.mci ∧ j'.metaSaved = j.metaSaved ∧
+      CrashAll (QF d0 (fun r => r = j.entries ∨ ∃ m, r = (j.entries.drop n).take m)) j.disk ps ∧
+      (∀ t, QF d0 (fun r => r = []) (crashDisk j.disk ps 1 t)) := by
+  obtain ⟨j1, p1, a1, a2, a3, a4, a5, a6, a7, a8, a9, a10⟩ := clear_ok hi hm ht
+  have hvd := hi.1.2.1.drop n
+  obtain ⟨j2, p2, b1, b2, b3, b4, b5, b6, b7, b8⟩ := addAll_ok d0 (j.entries.drop n) j1 a2 hvd.2
+    (by rw [a3]; simpa using hvd.1) (by rw [a7]; exact hm) (by rw [a8]; exact ht)
+  refine ⟨j2, p1 ++ p2, by simp only [FJ.delTo, a1, b1], b2, by rw [b3, a3]; simp, ?_, by rw [b5, a5],
+    by rw [b6, a6], ?_, ?_⟩
+  rotate_left 2
+  · intro t
+    obtain ⟨p, rfl⟩ := a10
+    have := b8 t
+    rw [a3, a4] at this
+    simpa using this
+  · rw [applyPrims_append, ← a4, b4]
+  · apply CrashAll.append
+    · refine CrashAll.mono a9 (fun d h => QF.mono h ?_)
+      rintro r (rfl | rfl)
+      · exact Or.inl rfl
+      · exact Or.inr ⟨0, by simp⟩
+    · rw [← a4]
+      refine CrashAll.mono b7 (fun d h => QF.mono h ?_)
+      rintro r ⟨m, rfl⟩
+      exact Or.inr ⟨m, by rw [a3]; simp⟩
 
 end PSO.Journal
